@@ -37,6 +37,14 @@ def conditions(tier, seed):
                             func='check_case_prebuild', timeout=900,
                             bound='C05 corpus x action homes: instances prebuilt from the %s-case body equal those of the lower-case body (all attributes except ids)' % st,
                             case_split=['ci'], realised=['program text'], twin=(sh == 0)))
+    for g in ['side_effect_operands', 'in_where', 'instance_op', 'recursion', 'return_forms', 'bridge']:
+        for st in ('upper', 'mixed'):
+            out.append(Cond('calls_%s_%s' % (st, g), 'c15_calls.py', dict(graph=g, style=st), timeout=t,
+                            bound='call graph %s with %s-case keywords in every body: result and final attribute values equal the reference (= lower-case semantics)' % (g, st),
+                            symbolic=['a', 'b', 'v0', 'v1', 'n in 0..4'], realised=['program text'], twin=(st == 'upper')))
+            out.append(Cond('callsdiff_%s_%s' % (st, g), 'c15_calls.py', dict(graph=g, style=st), func='check_case', timeout=t,
+                            bound='call graph %s: lower-case bodies vs %s-case bodies executed side by side, same result and final values' % (g, st),
+                            symbolic=['a', 'b', 'v0', 'v1', 'n in 0..4'], realised=['program text'], twin=False))
     import oalgen
     for n in KWPROGS:
         for fi in range(NFIELDS.get(n, 1)):
